@@ -79,6 +79,7 @@ TCopying == IsOp("copying") /\ Copying(ev.dst, ev.src, ev.t) /\ Match(out')
 TBitOp == IsOp("bitop") /\ BitOp(ev.dst, ev.x, ev.y, ev.t) /\ Match(out')
 TContains == IsOp("contains") /\ ContainsSl(ev.x.src, ev.y) /\ Match(out')
 
+TStr == IsOp("str") /\ ToText(ev.src) /\ Match(out')
 TObs == IsOp("obs") /\ Obs(ev.src, ev.gets, ev.nths) /\ Match(out')
 
 TEq == IsOp("eq") /\ OperandOK(ev.x) /\ OperandOK(ev.y)
@@ -196,7 +197,7 @@ TraceNext ==
     \/ TLit \/ TParse \/ TTrim \/ TFromSyms \/ TNew \/ TClone \/ TToOwned \/ TFromRaw \/ TSerde
     \/ TPush \/ TExtend \/ TClear \/ TTruncate \/ TAppend \/ TPrepend \/ TInsert \/ TRemove
     \/ TInPlace \/ TCopying \/ TBitOp \/ TContains
-    \/ TObs \/ TEq \/ THash \/ TMapGet \/ TCmp \/ TToInt \/ TIntoRaw
+    \/ TStr \/ TObs \/ TEq \/ THash \/ TMapGet \/ TCmp \/ TToInt \/ TIntoRaw
     \/ TKFrom \/ TKParse \/ TKFromInt \/ TKOp \/ TKObs \/ TKSerde \/ TKToSeq \/ TKmers \/ TKMinMax
     \/ TItNew \/ TItNext \/ TItRun
     \/ TConvert \/ TTextBase
